@@ -636,14 +636,40 @@ func runC03Detectors(c *Ctx) {
 			continue
 		}
 		sig := fn.Signature
-		if sig.Results().Len() != 1 || !isBoolType(sig.Results().At(0).Type()) || sig.Params().Len() != 1 {
+		// a detector answers yes/no; a counting helper behind two detectors (pairs in the hand)
+		// answers with a number
+		if sig.Results().Len() != 1 || !(isBoolType(sig.Results().At(0).Type()) || isIntType(sig.Results().At(0).Type())) || sig.Params().Len() < 1 {
 			continue
 		}
 		if _, isSlice := sig.Params().At(0).Type().Underlying().(*types.Slice); !isSlice {
 			continue
 		}
+		// further parameters are plain numbers (how many of a kind to count)
+		scalarRest := true
+		for i := 1; i < sig.Params().Len(); i++ {
+			if !isIntType(sig.Params().At(i).Type()) {
+				scalarRest = false
+			}
+		}
+		if !scalarRest {
+			continue
+		}
 		loops := findLoops(fn)
 		if len(loops) == 0 {
+			// a predicate that hands its input to a scanning helper is covered by that helper
+			if isBoolType(sig.Results().At(0).Type()) {
+				counted := false
+				for _, b := range fn.Blocks {
+					for _, in := range b.Instrs {
+						if call, ok := in.(*ssa.Call); ok {
+							if h := call.Call.StaticCallee(); h != nil && h.Pkg == fn.Pkg && len(findLoops(h)) > 0 && len(call.Call.Args) >= 1 && call.Call.Args[0] == ssa.Value(fn.Params[0]) && !counted {
+								n++
+								counted = true
+							}
+						}
+					}
+				}
+			}
 			continue
 		}
 		n++
@@ -735,7 +761,7 @@ func runC03Detectors(c *Ctx) {
 		}
 		c.check(len(bad) == 0, "detectors-scan-all", fnKey(fn), p.FnPos(fn), "looks at its whole input", "a pattern detector ignores part of the hand", uniq(bad, 2)...)
 	}
-	c.floor("detectors-scan-all", "pattern detectors", n, 7)
+	c.floor("detectors-scan-all", "pattern detectors", n, 4)
 }
 
 func swap(in []string, a, b string) []string {
@@ -942,7 +968,7 @@ func runC03Ladder(c *Ctx) {
 			bad = append(bad, fmt.Sprintf("path on which is%s decides stores category %s", first, got))
 		}
 	}
-	c.floor("ladder-priority", "ladder paths", n, 5)
+	c.floor("ladder-priority", "ladder paths", n, 3)
 	if len(bad) > 6 {
 		bad = bad[:6]
 	}
